@@ -15,9 +15,9 @@ CLAIMED = {
          "Exploration of sampled schedules (60 per program quick, 400 thorough), not enumeration; four genuine lock-order inversions and one atomicity defect (the last one introduced by an earlier repair and found by the check) were repaired by fix: commits and are kept as regression replays.",
          "The hook swaps std::sync for shuttle::sync in vls-core's prelude; behaviour outside those primitives is not modelled.",
          "C20"),
- "C10": ("stateful property-based testing with a union request machine (commitments on both sides, payments, on-chain, allowlist, tracker blocks, channel lifecycle) biased to refusable requests, on a plain and on a cloud-staged store; oracle = full observation (all channels' enforcement state, node bookkeeping, tracker entry, store dump, pending mutations) is identical before and after every refused request",
-         "Held-on-N-histories exploration; two genuine defects (revocation secret stored before refusal, allowlist partially applied) were repaired by fix: commits.",
-         "Storage backend failures not generated; API-level requests with the handler's persist envelope, wire-protocol handlers not driven.",
+ "C10": ("stateful property-based testing with a union request machine (commitments on both sides, payments, on-chain, allowlist, tracker blocks, channel lifecycle) biased to refusable requests, on a plain and on a cloud-staged store, plus a wire group (holder-commitment histories through the protocol handlers at protocol versions 4-6, every refused message compared); oracle = full observation (all channels' enforcement state, node bookkeeping, tracker entry, store dump, pending mutations) is identical before and after every refused request",
+         "Held-on-N-histories exploration; three genuine defects (revocation secret stored before refusal, allowlist partially applied, channel entry rewritten by the refused combined validate request) were repaired by fix: commits.",
+         "Storage backend failures not generated; API-level requests with the handler's persist envelope; the wire group covers the channel handler's commitment requests on the in-memory store only.",
          "C10"),
  "C11": ("stateful property-based testing with crash injection after every request: a twin signer is restored from a copy of the store alone and compared field by field with the running signer on the items the property lists; memory store, cloud-staged store, and vls-persist's BackupPersister (twin restored from the backup store alone); one channel carries a permanent id",
          "Held-on-N-histories exploration (about 50k restores per quick run); the genuine defect found (forget flag not durable) was repaired by a fix: commit.",
